@@ -32,6 +32,7 @@ def main():
     name = prop
     tier = "quick"
     checks = [prop]
+    sub = ""
     args = sys.argv[3:]
     while args:
         a = args.pop(0)
@@ -41,7 +42,9 @@ def main():
             tier = args.pop(0)
         elif a == "--checks":
             checks = args.pop(0).split(",")
-    mdir = os.path.join(wt, "_mutant")
+        elif a == "--mdir":
+            sub = args.pop(0)
+    mdir = os.path.join(wt, "_mutant", sub) if sub else os.path.join(wt, "_mutant")
     patch = os.path.join(mdir, "patch.diff")
     demos = glob.glob(os.path.join(mdir, "*_test.go")) + glob.glob(os.path.join(mdir, "*.go"))
     demos = sorted(set(demos))
@@ -52,8 +55,8 @@ def main():
     cur_files = set(re.findall(r"^diff --git a/(\S+)", cur, re.M))
     pat_files = set(re.findall(r"^diff --git a/(\S+)", open(patch).read(), re.M))
     report = {"property": prop, "files_changed": sorted(pat_files)}
-    if cur_files != pat_files:
-        print("note: worktree diff touches %s, patch touches %s; re-creating the worktree state from the patch" % (cur_files, pat_files))
+    if cur_files != pat_files or cur.strip() != open(patch).read().strip():
+        # (several mutants may live in one worktree: always start from the patch under test)
         sh("git checkout -- . && git apply %s" % patch, cwd=wt, check=True)
     # 1. compiles, own tests pass
     code, out = sh("go build ./... && go test -count=1 ./...", cwd=wt)
